@@ -183,7 +183,21 @@ func cmdCheck(args []string) int {
 			if strings.HasPrefix(fr.Err, "binding:") {
 				kind = "binding:" + fr.Key
 			}
-			violate(kind, fr.Err, false, nil)
+			// the contract no longer fits the code (or the code left the subset): nothing is proved for this
+			// function. The hand-written reproductions of its contract can still find a failing input.
+			extra := map[string]interface{}{"function": fr.Key}
+			confirmed := false
+			if fr.Con != nil && fr.Fn != nil {
+				for ri, body := range fr.Con.ReplayGo {
+					rr := w.replayGo(fr, body)
+					extra[fmt.Sprintf("replay_go_%d", ri)] = rr
+					if rr.Confirmed {
+						confirmed = true
+						break
+					}
+				}
+			}
+			violate(kind, "contract could not be applied to the current code, nothing proved for this function: "+fr.Err, confirmed, extra)
 		}
 	}
 	assumptions := map[string]bool{}
@@ -294,6 +308,17 @@ func cmdCheck(args []string) int {
 	if disagree > 0 {
 		violate("machinery:solver-disagreement", fmt.Sprintf("%d obligations proved by one solver are refuted by another", disagree), false, nil)
 	}
+	// the slowest obligations of this run (margin against the per-obligation timeout)
+	slow := append([]*Verdict(nil), vs...)
+	sort.Slice(slow, func(i, j int) bool { return slow[i].Time > slow[j].Time })
+	slowest = nil
+	slowest = []evSample{}
+	for i := 0; i < len(slow) && len(slowest) < 8; i++ {
+		if slow[i].Obl.Smoke || slow[i].Obl.Canary {
+			continue
+		}
+		slowest = append(slowest, evSample{slow[i].Obl.Name, slow[i].Status, slow[i].Solver, round3(slow[i].Time), slow[i].Size})
+	}
 	writeEvidence(evPath, prop, *tier, seed, efs, samples, nObl, nDis, violations, time.Since(t0).Seconds(), byBackend, sortedKeys(assumptions), known, solverTime, smoke)
 	if *verbose {
 		for _, v := range vs {
@@ -319,6 +344,8 @@ func matchKnown(ks []KnownFinding, prop, obl string) *KnownFinding {
 	}
 	return nil
 }
+
+var slowest []evSample
 
 func writeEvidence(path, prop, tier string, seed int, fns []*evFunc, samples []evSample, nObl, nDis, violations int, wall float64,
 	byBackend map[string]int, assumptions []string, known []KnownFinding, solverTime float64, smoke int) {
@@ -352,6 +379,7 @@ func writeEvidence(path, prop, tier string, seed int, fns []*evFunc, samples []e
 			"solver_time_s":            round3(solverTime),
 			"smoke_and_canary_checks":  smoke,
 			"samples":                  samples,
+			"slowest_obligations":      slowest,
 			"known_findings":           ks,
 			"explanation":              "every obligation is generated from /repo's current source (go/ssa) and the contract files behind build tag verif, one SMT query per obligation; integers are modelled exactly (wrap-around), loops are cut at invariants, calls use callee contracts",
 		},
